@@ -386,7 +386,12 @@ func init() {
 		Level:       "model_checking",
 		Rule:        "storage states = distinct VerifDump keys reached by insert histories (all pairs, plus 16 / all triples, over the C03 alphabet) × placements {memory, disk, split, split+restart}, schemas {t1, tp}; on each state the whole query alphabet (48 t1 queries / 12 tp queries: select lists, derived and PERCENTILE-wrapping fields, absolute/relative/unaligned ASOF/UNTIL incl. ranges ending before the newest period, GROUP BY subsets, period multiples, STRIDE, SHIFT, CROSSHIFT, CROSSTAB(T), HAVING, WHERE, IN- and FROM-subqueries, ORDER/LIMIT) × includeMemStore {true,false}; oracle: decoded file+memstore bytes and 2 probe queries (with and without memstore) identical after each query, the baseline probes identical to those of a second fresh instance that issues them in the opposite order, probes identical again after the next flush; on every state also 2 queries × includeMemStore × 4 abnormal endings (consumer error at row 1 / 2, deadline already expired, deadline passing while row 1 is delivered); thorough adds ordered pairs (Q1;Q2) on fresh instances; non-trivial = query that returned rows",
 		Assumptions: []string{"walking the alphabet on one instance is sound because the byte-level state is verified unchanged after every query"},
-		Shards:      func(tier string) int { return 16 },
+		Shards: func(tier string) int {
+			if tier == "thorough" {
+				return 32 // short-lived workers: every closed zenodb instance leaves goroutines and buffers behind
+			}
+			return 16
+		},
 		Budget: func(tier string) time.Duration {
 			if tier == "thorough" {
 				return 40 * time.Minute
